@@ -315,7 +315,7 @@ func buildC20(tier string) *core.Plan {
 		Run:  func(c *core.Ctx, i int64) { c20Run(c, "stubb", short[i]) }}
 	return &core.Plan{
 		Spaces: []core.Space{sp, spB},
-		Rule: "every argument vector of length 0..max over 18 argument kinds (short flag, --opt=value, --opt=file.yaml, word, -, existing non-bkl file, existing layer file, virtual name of another format, unsupported extension, layer whose evaluation fails, multi-document layer requested as TOML, missing .yaml name), " +
+		Rule: fmt.Sprintf("every argument vector of length 0..max over %d argument kinds (short flag, --opt=value, --opt=file.yaml, word, -, existing non-bkl file, existing layer file, virtual name of another format, unsupported extension, four kinds of layers whose evaluation fails, multi-document layer requested as TOML, missing .yaml name, empty and blank/unicode arguments, --, .yml- and .json-backed layers, the same base name in two directories, names with glob metacharacters, a symlink to a layer by its real and a virtual name), ", nk) +
 			"and vectors of length 5-8 of flags with one (thorough: two) non-flag argument(s) at every position; each invoked as recb (symlink to bklb) and as kubectl-bkl, with a recording stand-in on PATH",
 		Assumptions: []string{"the stand-in records argv and the content of every argument naming a regular file; file-argument content is parsed with encoding/json, yaml.v3 and go-toml called directly and compared with the known evaluated layers"},
 		Bounds:      map[string]any{"max_len_full": maxLen, "vectors": len(all), "kinds": nk},
